@@ -60,11 +60,40 @@ var (
 	I2Enabled = true
 )
 
+// Two different seeds with the same remainder modulo 2^31-1 give the same sequence (math/rand
+// documents it): a tree that seeds from 64 bits of entropy meets that birthday bound, and the
+// no-duplicate oracle, which holds draws to be distinct by construction, steps back for such a
+// run. The same seed used twice is not this case and stays judged.
+var (
+	seedGen     uint64
+	seedsSeen   map[int64]int64
+	SeedAliased bool
+)
+
+func noteSeed(raw int64) {
+	sim := sched.Cur
+	if sim == nil {
+		return
+	}
+	if seedGen != sim.Gen || seedsSeen == nil {
+		seedGen, seedsSeen, SeedAliased = sim.Gen, map[int64]int64{}, false
+	}
+	r := reduceSeed(raw)
+	if prev, ok := seedsSeen[r]; ok {
+		if prev != raw {
+			SeedAliased = true
+		}
+		return
+	}
+	seedsSeen[r] = raw
+}
+
 // New is rand.New.
 func New(src Source) *Rand { return rand.New(src) }
 
 // NewSource returns a simulated source.
 func NewSource(seed int64) Source {
+	noteSeed(seed)
 	return &SimSource{codeSeed: reduceSeed(seed)}
 }
 
@@ -155,6 +184,7 @@ func (s *SimSource) access(reseed bool, seed int64) uint64 {
 		return 0
 	}
 	if reseed {
+		noteSeed(seed)
 		s.codeSeed = reduceSeed(seed)
 		s.idx = 0
 	} else {
